@@ -5,23 +5,44 @@
    the per-partition summary, every object outside the source prefix left in S3, the
    number of S3 calls, whether a delete failed.  [check_case] runs the model with the
    executable CRC-32C and compares; the source objects must be untouched.
-   Byte strings arrive as hex literals ([hx]). *)
-From Coq Require Import String Ascii.
+   Initial objects arrive packed 7 bytes per primitive integer ([pk]); objects left
+   after a run are compared by length and two polynomial hashes ([fp]). *)
+From Coq Require Import Uint63.
 From KS Require Import lib.Base lib.PitrWire model.Pitr.
 Open Scope Z_scope.
 
-Definition hexv (a : ascii) : Z :=
-  let n := Z.of_N (N_of_ascii a) in
-  if n <? 58 then n - 48 else n - 87.
-Fixpoint hx (s : string) : bytes :=
-  match s with
-  | String a (String b s') => (hexv a * 16 + hexv b) :: hx s'
-  | _ => []
-  end.
-Arguments hx s%string.
+(* initial objects arrive packed: 7 bytes per primitive integer, big-endian *)
+Definition unpack7 (i : int) : bytes :=
+  let z := Uint63.to_Z i in
+  [z / 281474976710656 mod 256; z / 1099511627776 mod 256; z / 4294967296 mod 256;
+   z / 16777216 mod 256; z / 65536 mod 256; z / 256 mod 256; z mod 256].
+Definition pk (len : Z) (l : list int) : bytes := firstn (Z.to_nat len) (flat_map unpack7 l).
+Arguments pk len%Z l%uint63.
+
+(* CRC-32C on primitive integers (same bitwise algorithm as PitrWire.crc32c, ~50x
+   faster under vm_compute); agreement is checked on test vectors below *)
+Definition crc_step (c : int) : int :=
+  if Uint63.eqb (Uint63.land c 1) 0 then Uint63.lsr c 1 else Uint63.lxor (Uint63.lsr c 1) 2197175160.
+Definition crc_byte (c : int) (b : Z) : int :=
+  crc_step (crc_step (crc_step (crc_step (crc_step (crc_step (crc_step (crc_step (Uint63.lxor c (Uint63.of_Z b))))))))).
+Definition crc_fast (l : bytes) : Z :=
+  Uint63.to_Z (Uint63.lxor (fold_left crc_byte l 4294967295%uint63) 4294967295).
+
+Example crc_fast_check_value : crc_fast [49;50;51;52;53;54;55;56;57] = 3808858755 /\
+  crc32c [49;50;51;52;53;54;55;56;57] = 3808858755 /\
+  crc_fast (List.repeat 200 40 ++ [0;255;17]) = crc32c (List.repeat 200 40 ++ [0;255;17]).
+Proof. vm_compute. repeat split. Qed.
+
+(* final objects arrive as (length, hash1, hash2) *)
+Definition fp (b : bytes) : Z * Z * Z :=
+  (zlen b,
+   Uint63.to_Z (fold_left (fun h x => Uint63.mod (Uint63.add (Uint63.add (Uint63.mul h 65599) (Uint63.of_Z x)) 1) 4294967291) b 7%uint63),
+   Uint63.to_Z (fold_left (fun h x => Uint63.mod (Uint63.add (Uint63.add (Uint63.mul h 31337) (Uint63.of_Z x)) 3) 4294967291) b 11%uint63)).
+Definition fp_eqb (a b : Z * Z * Z) : bool :=
+  let '(l, h1, h2) := a in let '(l', h1', h2') := b in (l =? l') && (h1 =? h1') && (h2 =? h2').
 
 Record run := mkRun {
-  r_faults : list Z; r_ok : bool; r_summary : list (Z * Z * Z); r_final : store; r_calls : Z; r_delfail : bool }.
+  r_faults : list Z; r_ok : bool; r_summary : list (Z * Z * Z); r_final : list (key * (Z * Z * Z)); r_calls : Z; r_delfail : bool }.
 Record case := mkCase { c_T : Z; c_parts : list Z; c_init : store; c_runs : list run }.
 
 Definition summ_eqb (a b : Z * Z * Z) : bool :=
@@ -31,6 +52,10 @@ Definition store_sub (a b : store) : bool :=
   forallb (fun kv => opt_eqb bytes_eqb (s_get b (fst kv)) (Some (snd kv))) a.
 Definition store_eqv (a b : store) : bool :=
   store_sub a b && store_sub b a && (zlen a =? zlen b).
+(* model objects vs observed fingerprints: same keys, same fingerprints *)
+Definition fp_match (a : store) (b : list (key * (Z * Z * Z))) : bool :=
+  forallb (fun kf => match s_get a (fst kf) with Some v => fp_eqb (fp v) (snd kf) | None => false end) b &&
+  (zlen a =? zlen b).
 
 Fixpoint fault_bits (n : nat) (i : Z) (idx : list Z) : list bool :=
   match n with
@@ -42,12 +67,12 @@ Definition is_src (kv : key * bytes) : bool := k_space (fst kv) =? 0.
 
 Definition check_run (c : case) (r : run) : bool :=
   let n := Z.to_nat (r_calls r + 12) in
-  let '(res, w) := restore crc32c (mkW (c_init c) (fault_bits n 0 (r_faults r)) false) (c_T c) (c_parts c) in
+  let '(res, w) := restore crc_fast (mkW (c_init c) (fault_bits n 0 (r_faults r)) false) (c_T c) (c_parts c) in
   (match res with
    | Ok s => r_ok r && list_eqb summ_eqb s (r_summary r)
    | Err => negb (r_ok r)
    end) &&
-  store_eqv (filter (fun kv => negb (is_src kv)) (w_objs w)) (r_final r) &&
+  fp_match (filter (fun kv => negb (is_src kv)) (w_objs w)) (r_final r) &&
   store_eqv (filter is_src (w_objs w)) (filter is_src (c_init c)) &&
   (Z.of_nat n - zlen (w_faults w) =? r_calls r) &&
   Bool.eqb (w_delfail w) (r_delfail r).
